@@ -197,6 +197,8 @@ def evaluate(dep, program):
             vv, info = c14.judge_iterative(dep, rec, L, "C03", scratch)
         else:
             continue
+        if sampling.failed_as_injected(rec):
+            probes["failed_op_in_history(injected pool fault, raised)"] = probes.get("failed_op_in_history(injected pool fault, raised)", 0) + 1
         # from the C02/C14 judgement keep only what C03 itself states: count, units, unchanged copy
         # ("evaluated-values": the batch handed to the kernel -- whose nonlinear part is copied into every emitted row --
         # does not hold the library's values: the emitted copy of the nonlinear parameters is not unchanged)
